@@ -1630,7 +1630,19 @@ sub_mul_int(Type& to, const Type x, const Type y, Rounding_Dir dir) {
     }
     return assign_nan<To_Policy>(to, V_UNKNOWN_NEG_OVERFLOW);
   case 1:
-    if (to <= 0) {
+    if (to < 0 || (to == 0 && !C_Integer<Type>::is_signed)) {
+      return set_neg_overflow_int<To_Policy>(to, dir);
+    }
+    if (to == 0) {
+      // The opposite of the product may still be representable.
+      if (y != C_Integer<Type>::min) {
+        return mul<To_Policy, From1_Policy, From2_Policy>
+          (to, x, static_cast<Type>(-y), dir);
+      }
+      if (x != C_Integer<Type>::min) {
+        return mul<To_Policy, From1_Policy, From2_Policy>
+          (to, static_cast<Type>(-x), y, dir);
+      }
       return set_neg_overflow_int<To_Policy>(to, dir);
     }
     return assign_nan<To_Policy>(to, V_UNKNOWN_POS_OVERFLOW);
